@@ -32,6 +32,7 @@ structure St where
   bytes : Array Nat := #[]
   gens : List (Nat × Nat × Nat) := []     -- (count, frame size, pattern id) of generated bursts, in order
   roll : Bool := false                    -- the connection lasts longer than the one-minute file interval
+  prev : List (Array Nat) := []           -- bytes of earlier connections of this case (the camera reconnected)
 
 def init (f : List String) : St := { device := kvS f "device", devId := nat (kvS f "id"), roll := kvS f "roll" == "1" }
 
@@ -86,9 +87,20 @@ def step (st : St) (bl : Block) : St × List String :=
   | ["g", cnt, fsize, pid] => ({ st with gens := st.gens ++ [(nat cnt, nat fsize, nat pid)] }, [])
   | ["b", hex] => ({ st with bytes := st.bytes ++ parseHexBytes hex }, [])
   | ["stall", _] => (st, [])
+  | ["n"] =>
+    let e := expect st
+    ({ st with prev := st.prev ++ [st.bytes], bytes := #[] },
+     [if !e.headerOk then "conn error" else if e.truncated then "conn truncated" else "conn eof"])
   | ["end"] =>
     let e := expect st
     if !e.headerOk then (st, ["conn error"]) else
+    if !st.prev.isEmpty then
+      -- one file per connection, in the order of the connections, each holding exactly that connection's frames — however far
+      -- the writer of an earlier connection lagged when the next one began (`Props.C18`: every queued frame is flushed before
+      -- the file is closed; nothing is shared between the files of two connections)
+      let es := (st.prev ++ [st.bytes]).map fun b => expect { st with bytes := b }
+      (st, [if e.truncated then "conn truncated" else "conn eof"] ++
+        ((List.range es.length).zip es).map (fun (i, x) => s!"file {i} .cptr {toHex (CPTR.encodeFile x.hdr x.frames)}") ++ [s!"files {es.length}"]) else
     if st.roll then
       -- where the stream is cut into files depends on the wall clock: the file lines are observations
       -- (echoed); the monitor checks that together they hold every frame once, in order
@@ -106,6 +118,7 @@ structure MSt where
   frames : Nat := 0
   bytesIn : Nat := 0
   segs : Nat := 0
+  reconnects : Nat := 0
 
 def monInit (f : List String) : MSt := { st := init f }
 
@@ -116,11 +129,16 @@ def monStep (m : MSt) (bl : Block) : MSt × List String :=
     ({ m with st := { m.st with bytes := m.st.bytes ++ b }, bytesIn := m.bytesIn + b.size, segs := m.segs + 1 }, [])
   | ["g", cnt, fsize, pid] =>
     ({ m with st := { m.st with gens := m.st.gens ++ [(nat cnt, nat fsize, nat pid)] }, bytesIn := m.bytesIn + nat cnt * nat fsize }, [])
+  | ["n"] => ({ m with st := (step m.st bl).1 }, [])
   | ["end"] =>
     let e := expect m.st
     let files := bl.outs.filter fun o => o.head? == some "file"
     let m := { m with frames := e.frames.length + (m.st.gens.map (·.1)).foldl (· + ·) 0 }
     if !e.headerOk then (m, []) else
+    if !m.st.prev.isEmpty then
+      let want := ((step m.st bl).2.filter (·.startsWith "file ")).map fields
+      if files == want then ({ m with reconnects := m.reconnects + 1 }, [])
+      else (m, ["prop=C18 reason=frames-of-a-connection-missing-or-misplaced-after-a-reconnect-while-the-writer-lagged"]) else
     if m.st.roll then
       let strip (fs : List CPTR.Field) := fs.filter (·.code != 84)
       let dec := files.map fun o => match o with
@@ -161,6 +179,6 @@ def monStep (m : MSt) (bl : Block) : MSt × List String :=
   | _ => (m, [])
 
 def monFinish (m : MSt) : List String :=
-  [s!"STAT stream=writer frames={m.frames} bytes={m.bytesIn} segments={m.segs} nontrivial={if m.frames ≥ 1 then 1 else 0}"]
+  [s!"STAT stream=writer frames={m.frames} bytes={m.bytesIn} segments={m.segs} reconnects={m.reconnects} nontrivial={if m.frames ≥ 1 then 1 else 0}"]
 
 end Driver.WriterStream
